@@ -37,7 +37,8 @@ ASSUMPTIONS = [
 FLOORS = {
     "quick": {"definitions": 1500, "uses:ACCEPT": 15000, "uses:REJECT": 30000,
               "trees-compared": 15000, "roundtrips": 15000, "unregistered-probes": 5000,
-              "accepted-uses-with-a-single-string-for-a-stringlist-parameter": 1000, "derived-definitions": 300, "redefinitions": 300,
+              "accepted-uses-with-a-single-string-for-a-stringlist-parameter": 1000,
+              "uses-on-a-parser-with-a-failed-parse-behind-it": 30000, "derived-definitions": 300, "redefinitions": 300,
               "uses-in-test-lists": 1000,
               "derived-uses:ACCEPT": 3000},
     "thorough": {"definitions": 8000, "uses:ACCEPT": 150000, "uses:REJECT": 150000,
@@ -182,6 +183,12 @@ def type_ok(kind, declared):
     if isinstance(declared, str):
         declared = [declared]
     return kind in declared
+
+
+USED = [0]
+USED_BEFORE = [b'redirect ["stale@example.com" "x"];', b'require ["fileinto", ',
+               b'if anyof (true, header :is ["stale-a", "stale-b"', b'if true { keep; ',
+               b'keep; fileinto :copy']
 
 
 def interpret(d, argtoks, required):
@@ -450,7 +457,16 @@ def evaluate_definition(d, seed, others):
                 verdict, reason, expect = interpret(d, argtoks, required)
                 toks = wrap(d, argtoks, required)
                 data = gen.join_tokens(toks)
-                o = lab.parse(data)
+                USED[0] += 1
+                if USED[0] % 3 == 0:
+                    # the Parser object has a failed parse behind it that broke off inside a
+                    # string list / a test list / a block; this use is judged like any other
+                    up = lab.sl_parser.Parser()
+                    lab.parse(USED_BEFORE[(USED[0] // 3) % len(USED_BEFORE)], parser=up)
+                    o = lab.parse(data, parser=up)
+                    cnt("uses-on-a-parser-with-a-failed-parse-behind-it")
+                else:
+                    o = lab.parse(data)
                 v = o.verdict()
                 cnt("uses:" + verdict)
                 cnt("cases")
